@@ -171,9 +171,12 @@ fn gen_history(rng: &mut Rng, raw: &[Vec<L>], unset_only: bool, maxlen: usize, o
     for _ in 0..maxlen {
         let do_pop = depth > 0 && (rng.chance(3, 10) || depth >= nv.max(1));
         if do_pop {
-            solver.pop();
-            depth -= 1;
             ops.push(Op::P);
+            // a panic here is the implementation's: keep the history up to it as the case
+            if std::panic::catch_unwind(std::panic::AssertUnwindSafe(|| solver.pop())).is_err() {
+                return ops;
+            }
+            depth -= 1;
             continue;
         }
         if nv == 0 {
@@ -191,18 +194,21 @@ fn gen_history(rng: &mut Rng, raw: &[Vec<L>], unset_only: bool, maxlen: usize, o
         };
         if cand.is_empty() {
             if depth > 0 {
-                solver.pop();
-                depth -= 1;
                 ops.push(Op::P);
+                if std::panic::catch_unwind(std::panic::AssertUnwindSafe(|| solver.pop())).is_err() {
+                    return ops;
+                }
+                depth -= 1;
                 continue;
             }
             break;
         }
         let l = (*rng.pick(&cand), rng.coin());
         ops.push(Op::D(l));
-        match solver.decide(to_lit(l)) {
-            DecisionResult::UNSAT => {}
-            _ => depth += 1,
+        match std::panic::catch_unwind(std::panic::AssertUnwindSafe(|| solver.decide(to_lit(l)))) {
+            Err(_) => return ops,
+            Ok(DecisionResult::UNSAT) => {}
+            Ok(_) => depth += 1,
         }
     }
     ops
